@@ -2062,8 +2062,18 @@ def product_campaign(ck: Ck, do_model: bool = False) -> None:
         opsA = [o for o in seq['ops'] if o['w'] == 0]
         n1, n2 = len(opsA), sum(1 for o in seq['ops'] if o['w'] == 1)
         # F: the rename of that use of A is refused (global number of the operation when A runs first up to there)
-        faults = [next(o['k'] for o in opsA if o['u'] == u and o['op'] == ('replace' if ch == 'F' else 'open') and o['res'] == 'ok')
-                  for u, ch in enumerate(word) if ch in 'FE']
+        faults = [next((o['k'] for o in opsA if o['u'] == u and o['op'] == ('replace' if ch == 'F' else 'open')
+                        and o['res'] == 'ok'), None) for u, ch in enumerate(word) if ch in 'FE']
+        if None in faults:
+            # the use never performs the operation this word wants refused (e.g. an entry that creates no temp file of its
+            # own): that is a failing input by itself, not a reason for the check to stop
+            product_check(ck, word, A, B, init, seq, None)
+            ck.violation(f'two-writers-reuse:use-without-its-own-open-or-rename:{word}',
+                         f'fault-free run of the word {word}: a use marked E / F performed no successful '
+                         f'{"open" if "E" in word else "replace"}: {[(o["u"], o["op"], o["name"], o["res"]) for o in opsA][:24]}',
+                         {'mode': 'product', 'word': word, 'a': {**A, 'uses': [_hexsc(u) for u in A['uses']]}, 'b': _hexsc(B),
+                          'init': {n: v.hex() for n, v in init.items()}, 'schedule': seq['executed'], 'fault_at': None})
+            continue
         fault_at = faults[0] if faults else None
         seen_sched: set[tuple[int, ...]] = set()
         nrun = 0
